@@ -100,13 +100,24 @@ DESC = {
 "C15h": "RefResolver.resolve strips trailing '/' from the joined URL (store documents whose URL ends in '/' are fetched)", "C16h": "RefResolver.__init__ uses store.setdefault(base_uri, referrer) (a re-registered metaschema id wins over the referrer)",
 "C17h": "ErrorTree files errors in sorted (path, validator) order (None vs str TypeError)", "C18h": "a store that already is a URIDict is adopted, not copied (two resolvers alias one store)",
 "C19h": "_PrettyFormatter runs the header (with the file path) through str.format twice", "C20h": "by_relevance appends the keyword name as tie-break (None vs str TypeError in validate())",
+"C01i": "single-schema items (drafts 6/7) skips elements found in a set of scalars it already accepted (1 / 1.0 / true collide)", "C02i": "push_scope joins a new scope onto the resolver's FIRST base instead of the innermost one",
+"C03i": "`if` registered in the Draft6 keyword table (values the draft-6 metaschema does not constrain reach if_)", "C04i": "validator_for reads $schema with schema.get (AttributeError for list / string schemas without a class)",
+"C05i": "array-form dependencies drops a missing name that the sibling `required` also lists", "C06i": "_Error.__str__ pops the keyword off the LIVE schema_path deque (rendering an error shortens its paths)",
+"C07i": "draft-3 properties looks members up with try instance[property] (defaultdict instances get members inserted)", "C08i": "uniqueItems partitions the array by JSON type before uniq() (1 and 1.0 land in different groups in drafts 3/4)",
+"C09i": "multipleOf caches its float/exact strategy per divisor in a module-level dict (2 and 2.0 share an entry)", "C10i": "RefResolver files stored documents under their own top-level $id as well (also for drafts 3/4)",
+"C11i": "check_schema follows the CANDIDATE's $schema to another registered draft's class and metaschema", "C12i": "draft-3 format re-spells ip-address/host-name to ipv4/hostname when the checker lacks the draft-3 name",
+"C13i": "older-draft format names registered class-wide without `raises` (ip-address lets AddressValueError escape)", "C14i": "resolve_fragment pre-checks an array index against the length by comparing decimal STRINGS",
+"C15i": "the store write moved from resolve_remote into resolve_from_url (a direct resolve_remote is not remembered)", "C16i": "validates() registers an id-less metaschema under its $schema",
+"C17i": "ErrorTree walks error.absolute_path instead of error.path (trees built from error.context misfile)", "C18i": "RefResolver construction appends unknown schemes to urllib.parse.uses_relative / uses_netloc",
+"C19i": "load failures are ADDED to the exit status (256 unloadable instances give status 0)", "C20i": "validator_for subscripts schema['$schema'] in a try (defaultdict schemas get a $schema invented and inserted)",
 }
 MISSED = set("C03 C07 C12 C15 C16 C20 C02b C06b C07b C10b C11b C14b C19b C01c C02c C06c C10c C12c C15c C16c C18c C19c C20c "
              "C02d C04d C05d C07d C09d C13d C15d C16d C18d C19d C20d "
              "C01e C02e C04e C05e C07e C10e C11e C12e C14e C15e C16e C19e C20e "
              "C02f C03f C04f C07f C11f C12f C17f C18f "
              "C01g C02g C05g C08g C09g C10g C12g C14g C16g C18g "
-             "C01h C02h C03h C04h C05h C06h C09h C12h C14h C18h C19h C20h".split())
+             "C01h C02h C03h C04h C05h C06h C09h C12h C14h C18h C19h C20h "
+             "C04i C06i C10i C15i C16i C17i C18i C19i C20i".split())
 rows = []
 for name in sorted(os.listdir(os.path.join(HERE, "seeded"))):
     mp = os.path.join(HERE, "seeded", name, "meta.json")
